@@ -145,6 +145,29 @@ func c14(r *mon.Run) {
 					}
 				}
 			}
+			// the name selects EXACTLY the member s: where s itself is absent and only look-alikes are present (another letter case of the
+			// first character or of all of them, the name trimmed, with a blank added) the answer is null
+			{
+				alikes := map[string]interface{}{}
+				rs := []rune(s)
+				if len(rs) > 0 {
+					for _, alt := range []string{strings.ToUpper(string(rs[:1])) + string(rs[1:]), strings.ToLower(string(rs[:1])) + string(rs[1:]), strings.ToUpper(s), strings.ToLower(s), strings.TrimSpace(s), s + " ", " " + s, strings.Title(s)} {
+						if alt != s {
+							alikes[alt] = "look-alike"
+						}
+					}
+				}
+				if len(alikes) > 0 {
+					lex := gen.EncodeString(s, gen.EncMinimal, nil)
+					for _, expr := range []string{lex, "@." + lex, "[" + lex + "][0]"} {
+						t.Eval()
+						if o := apiSearch(expr, alikes); o.Panicked || o.Err != nil || o.V != nil {
+							r.Violate(&mon.Violation{Workload: "quoted-identifiers", Index: i, API: "Search", Expr: expr, Doc: alikes, Expected: "null: there is no member " + strconv.QuoteToASCII(s) + ", only look-alikes", Observed: o.String(), Class: "quoted identifier selects a look-alike"})
+							return
+						}
+					}
+				}
+			}
 			// inside a chain of fields (after a dot, before a dot, on both sides): the name is one member name wherever
 			// it stands. Decoys: the nested path that a name with dots in it would spell if it were split at the dots.
 			{
